@@ -87,7 +87,7 @@ TripleExpr(c) ==
     [] c[4] = 3 -> Mk(o2, Mk(o1, a, b), Mk(o3, cc, d))
     [] c[4] = 4 -> Mk(o1, a, Mk(o3, Mk(o2, b, cc), d))
     [] c[4] = 5 -> Mk(o1, a, Mk(o2, b, Mk(o3, cc, d)))
-TriplesChoices(c) == IF Len(c) < 3 THEN Reps6 ELSE IF Len(c) = 3 THEN 1..5 ELSE {}
+TriplesChoices(c) == IF Len(c) < 3 THEN Reps6 ELSE IF Len(c) = 3 THEN 1..5 ELSE IF Len(c) = 4 THEN {"min", "all"} ELSE {}
 
 ---------------------------------------------------------------------------
 (* family unary: nests of signs, indexing, calls, parentheses in operand   *)
@@ -115,7 +115,7 @@ InCtx(cx, e) ==
     [] cx = "index" -> Index(Col("b"), e)
     [] cx = "req" -> Bin("Eq", Col("b"), e)
 UnaryExpr(c) == InCtx(c[4], ApplyW(c[3], ApplyW(c[2], ApplyW(c[1], Col("a")))))
-UnaryChoices(c) == IF Len(c) < 3 THEN Wrappers ELSE IF Len(c) = 3 THEN UContexts ELSE {}
+UnaryChoices(c) == IF Len(c) < 3 THEN Wrappers ELSE IF Len(c) = 3 THEN UContexts ELSE IF Len(c) = 4 THEN {"min", "all"} ELSE {}
 
 ---------------------------------------------------------------------------
 (* expression menu and positions                                           *)
@@ -500,6 +500,30 @@ StressToks(c) ==
 
 ---------------------------------------------------------------------------
 
+\* redundant parentheses around every operand (C01: they only change grouping)
+RECURSIVE ParenAll(_)
+PA(e) == IF e.k \in {"QIdent", "Lit", "Paren"} THEN ParenAll(e) ELSE Paren(ParenAll(e))
+ParenAll(e) ==
+  CASE e.k = "Bin" -> [e EXCEPT !.x = PA(e.x), !.y = PA(e.y)]
+    [] e.k = "In" -> [e EXCEPT !.x = PA(e.x), !.vals = [i \in DOMAIN e.vals |-> PA(e.vals[i])]]
+    [] e.k = "Un" -> [e EXCEPT !.x = PA(e.x)]
+    [] e.k = "Index" -> [e EXCEPT !.x = PA(e.x), !.index = PA(e.index)]
+    [] e.k = "Paren" -> [e EXCEPT !.x = ParenAll(e.x)]
+    [] e.k = "Call" -> [e EXCEPT !.args = [i \in DOMAIN e.args |-> PA(e.args[i])]]
+    [] OTHER -> e
+Styled(style, e) == IF style = "all" THEN Paren(Canon(ParenAll(e))) ELSE Canon(e)
+
+\* the designated expression of the expression families and where it sits
+ExprFamilies == {"exprpairs", "exprtriples", "unary", "positions", "deep"}
+ExprOf(fam, c) ==
+  CASE fam = "exprpairs" -> Canon(PairExpr(c))
+    [] fam = "exprtriples" -> Styled(c[5], TripleExpr(c))
+    [] fam = "unary" -> Styled(c[5], UnaryExpr(c))
+    [] fam = "positions" -> Canon(ExprMenu[c[1]])
+    [] fam = "deep" -> Canon(Decode(c)[1])
+PosOf(fam, c) ==
+  CASE fam = "unary" -> "extendNamed" [] fam = "positions" -> c[2] [] OTHER -> "where"
+
 ChoicesOf(fam, c) ==
   CASE fam = "exprpairs" -> PairsChoices(c)
     [] fam = "exprtriples" -> TriplesChoices(c)
@@ -514,8 +538,8 @@ ChoicesOf(fam, c) ==
 
 BuildOf(fam, c) ==
   CASE fam = "exprpairs" -> <<Tab("T", <<Where(Canon(PairExpr(c)))>>)>>
-    [] fam = "exprtriples" -> <<Tab("T", <<Where(Canon(TripleExpr(c)))>>)>>
-    [] fam = "unary" -> <<Tab("T", <<Extend(<<ECol(Id("r"), Canon(UnaryExpr(c)))>>)>>)>>
+    [] fam = "exprtriples" -> <<Tab("T", <<Where(ExprOf(fam, c))>>)>>
+    [] fam = "unary" -> <<Tab("T", <<Extend(<<ECol(Id("r"), ExprOf(fam, c))>>)>>)>>
     [] fam = "positions" -> InPos(c[2], Canon(ExprMenu[c[1]]))
     [] fam = "pipelines" -> <<Tab("T", PipelineOps(c))>>
     [] fam = "operators" -> <<Tab("T", <<OperatorOf(c)>>)>>
@@ -596,7 +620,10 @@ EmitCase ==
     THEN LET items == BuildOf(Family, ch) IN
          PrintT("CASE " \o ToJson([fam |-> Family, ch |-> ch, toks |-> Toks(items), tree |-> Statements(items),
                                     xp |-> IF Family = "plant" THEN PlantParses(ch) ELSE "ok",
-                                    xc |-> CompilesOf(Family, ch)]))
+                                    xc |-> CompilesOf(Family, ch),
+                                    ex |-> IF Family \in ExprFamilies
+                                           THEN [pos |-> PosOf(Family, ch), e |-> ExprOf(Family, ch)]
+                                           ELSE [pos |-> "", e |-> None]]))
     ELSE PrintT("CASE " \o ToJson([fam |-> Family, ch |-> ch,
                                     toks |-> IF Family = "corrupt" THEN CorruptToks(ch) ELSE StressToks(ch),
                                     xp |-> "open", xc |-> "open"]))
